@@ -110,6 +110,16 @@ pub fn exercise(f: Fmt, s: &str) -> Result<(), String> {
         let _ = e.parse::<Stamp>(s).map_err(|e| e.to_string());
         let _ = e.parse::<Punctuation>(s).map_err(|e| e.to_string());
         let _ = e.parse_multi([s, "A.", s]).len();
+        // ... fed lazily (no size hints), and with the input twice in a row
+        let mut it = [s, s, "A."].into_iter();
+        let _ = e.parse_multi(std::iter::from_fn(move || it.next())).len();
+        // the lexical format re-created by its public factory in a reused place
+        for g in ALL_FMT {
+            let _ = with_recreated_lex(g, |l| {
+                let _ = l.parse(s).map(|lx| l.format_narsese(&lx)).map_err(|e| e.to_string());
+                let _ = l.parse_term(s).map_err(|e| e.to_string());
+            });
+        }
         match f.l().parse(s) {
             Ok(lx) => {
                 let _ = f.l().format_narsese(&lx);
